@@ -534,18 +534,22 @@ func (e *evaluator) evaluate(node parser.Node, current any, variables *variableS
 
 		return !equal(left, right), nil
 	case *parser.NotNullNode:
+		// Functions are evaluated in applicative order: every argument is
+		// evaluated, so that a failure after the first non-null argument
+		// is still reported.
+		var first any
 		for _, arg := range node.Arguments {
 			result, err := e.evaluate(arg, current, variables)
 			if err != nil {
 				return nil, err
 			}
 
-			if result != nil {
-				return result, nil
+			if first == nil {
+				first = result
 			}
 		}
 
-		return nil, nil
+		return first, nil
 	case parser.NullNode:
 		return nil, nil
 	case *parser.NumberNode:
